@@ -10,6 +10,7 @@ import (
 	"sort"
 	"strings"
 	"sync"
+	gotime "time"
 
 	"klogverif/clidrv"
 	"klogverif/docgen"
@@ -98,17 +99,22 @@ func init() {
 			"Plus PAIRS = every pair of catalogue edits on two different lines of each initial file (" + fmt.Sprint(c05PairCount()) + " files; quick: every 8th) x the same commands, command struct on the real context and real write path (commands whose flag values the CLI would reject are skipped there; the single-edit family runs them through klog.Run). " +
 			"Plus ENV = `klog pause` / `pause --extend` running over three minute boundaries on every initial file with a pausable open range, with ONE external change of the file injected before refresh 0, 1 or 2 " +
 			"(made unparseable; the record replaced by an unrelated one; a valid record appended): an unusable file must make the command fail and stay exactly as the external change left it, an appended record must survive (result = the undisturbed run's result + the appended text). " +
+			"Plus TARGETS = every command x every initial file addressed (a) through the default bookmark with unrelated text piped on standard input (must behave exactly as with the file named explicitly), (b) as a path that does not exist, a directory, an unknown bookmark (must fail with a message, non-zero status, nothing created). " +
 			"A case = (file, command); distinct by hash of both.",
 		Assumptions: []string{
 			"exit 0 => the file afterwards is accepted by klog's parser and by the reference parser (lenient reading of klog's own don't-care zones); exit != 0 => bytes identical and no other file appeared in the directory; a panic is a violation",
 			"I/O faults and crash points are not part of this property's quantifier",
 		},
-		Units: func(t fw.Tier) int { return len(c05Files()) + (c05PairCount()+c05PairChunk-1)/c05PairChunk + 1 },
+		Units: func(t fw.Tier) int { return len(c05Files()) + (c05PairCount()+c05PairChunk-1)/c05PairChunk + 2 },
 		RunUnit: func(c *fw.Ctx, unit int) {
 			if unit == len(c05Files())+(c05PairCount()+c05PairChunk-1)/c05PairChunk {
 				for i := 0; i < c05EnvCount(); i++ {
 					c05Env(c, i)
 				}
+				return
+			}
+			if unit == len(c05Files())+(c05PairCount()+c05PairChunk-1)/c05PairChunk+1 {
+				c05Targets(c, -1)
 				return
 			}
 			if unit >= len(c05Files()) {
@@ -134,6 +140,10 @@ func init() {
 		Replay: func(c *fw.Ctx, raw json.RawMessage) {
 			var cs c05Case
 			if json.Unmarshal(raw, &cs) == nil {
+				if cs.Env != nil && cs.Event == "target" {
+					c05Targets(c, *cs.Env)
+					return
+				}
 				if cs.Env != nil {
 					c05Env(c, *cs.Env)
 					return
@@ -335,5 +345,71 @@ func c05Env(c *fw.Ctx, i int) {
 			return
 		}
 		c.Outcome("env-edit-survives")
+	}
+}
+
+// ---- TARGETS: how the target file is addressed
+
+func c05Targets(c *fw.Ctx, only int) {
+	dir := filepath.Join(fw.Scratch(), "c05t")
+	os.RemoveAll(dir)
+	os.MkdirAll(filepath.Join(dir, "a directory"), 0755)
+	path := filepath.Join(dir, "target.klg")
+	home := clidrv.Home("home")
+	bhome := clidrv.Home("home-with-default-bookmark")
+	os.WriteFile(path, []byte("2021-03-10\n"), 0644)
+	if r := clidrv.Run(bhome, clidrv.Opts{Now: c04Env.Clock()}, "bookmarks", "set", path); r.Code != 0 {
+		harnessFatal("C05 TARGETS: cannot set the default bookmark: %s", r.Err)
+	}
+	piped := "this text is piped into klog\nand is not a klog file\n"
+	n := 0
+	for fi, before := range c04Init {
+		for _, o := range c05Ops() {
+			n++
+			if only >= 0 && n-1 != only {
+				continue
+			}
+			idx := n - 1
+			cs := c05Case{File: fi, Op: o, Before: fw.Txt(before), Env: &idx, Event: "target"}
+			c.Eval(1)
+			c.Nontrivial(fw.HashMix(fw.HashString(before+o.String()), uint64(idx)+1<<46))
+			// (a) explicit file vs default bookmark + piped stdin
+			os.WriteFile(path, []byte(before), 0644)
+			r0 := RunOp(home, path, o, c04Env)
+			after0 := clidrv.ReadFile(path)
+			os.WriteFile(path, []byte(before), 0644)
+			args := o.Args(path)
+			args = args[:len(args)-1] // no file argument: the default bookmark is the target
+			opts := clidrv.Opts{Now: c04Env.Clock(), ConfigFile: c04Env.ConfigFile(), OSStdin: &piped}
+			for _, t := range o.Ticks {
+				opts.TickTimes = append(opts.TickTimes, c04Env.Clock().Add(gotime.Duration(t)*gotime.Second))
+			}
+			r1 := clidrv.Run(bhome, opts, args...)
+			after1 := clidrv.ReadFile(path)
+			if r1.Panicked {
+				c.Violation("panic:target:"+fw.PanicSite(r1.Stack), cs, fmt.Sprintf("`klog %s` on the default bookmark panicked: %v\n%s", strings.Join(args, " "), r1.PanicVal, r1.Stack))
+				return
+			}
+			if !r0.Panicked && (r0.Code != r1.Code || after0 != after1) {
+				c.Violation("target-addressing-changes-effect", cs, fmt.Sprintf("`klog %s` with the file named explicitly: exit %d, file %q\nthe same command on the default bookmark with unrelated text piped on standard input: exit %d (%s), file %q", o.String(), r0.Code, after0, r1.Code, strings.TrimSpace(r1.Err), after1))
+				return
+			}
+			if r1.Code != 0 && after1 != before {
+				c.Violation("failed-but-changed", cs, fmt.Sprintf("`klog %s` on the default bookmark failed (exit %d) but the file changed: %q -> %q", strings.Join(args, " "), r1.Code, before, after1))
+				return
+			}
+			// (b) targets that cannot be used
+			if fi == 0 {
+				for _, bad := range []string{filepath.Join(dir, "missing.klg"), filepath.Join(dir, "a directory"), "@nope", filepath.Join(dir, "no such dir", "x.klg")} {
+					rb := RunOp(home, bad, o, c04Env)
+					ents, _ := os.ReadDir(dir)
+					if rb.Panicked || rb.Code == 0 || strings.TrimSpace(rb.Err) == "" || len(ents) != 2 {
+						c.Violation("unusable-target", cs, fmt.Sprintf("`klog %s` on a target that cannot be used (%s): exit %d, panic %v, message %q, %d directory entries (expected failure with a message and nothing created)", o.String(), bad, rb.Code, rb.PanicVal, strings.TrimSpace(rb.Err), len(ents)))
+						return
+					}
+				}
+			}
+			c.Outcome("target-ok")
+		}
 	}
 }
